@@ -54,8 +54,42 @@ def abnf_cases(ctx, n):
     return out
 
 
+BASES = ["a . b", "a [ 0 ]", "a [ * ] . b", "a [] . b", "a [? b == `1` ] . c", "a [ 1 : 2 : 3 ]", "a . *", "* . a", "[ a , b ]", "{ k : a , \"q\" : b }",
+         "f ( a , b )", "f ( & a , b )", "f ( )", "a . f ( b )", "! a", "( a )", "a || b && c", "a | b", "a == b", "a < b", "@", "a . [ b , c ]",
+         "a . { k : b }", "`1` [ 0 ]", "'r' . a", "a [ : ]", "[ 0 ]", "[ * ]", "[]", "[? a ]", "a [ * ] [ 0 ]", "f ( g ( a ) , [ b ] )", "a . \"q\" . b"]
+EDIT_TOKS = [".", "*", "[]", "&&", "||", "|", "[?", "[", "]", ",", ":", "!", "!=", "==", "<", "@", "&", "(", ")", "{", "}", "a", "\"q\"", "'r'", "`1`", "0", "-1"]
+
+
+def edit_cases(ctx):
+    """every single-token deletion, insertion, replacement and adjacent swap of each base sentence (small-scope exhaustive near-misses),
+    judged by the ABNF recogniser"""
+    rng = ctx.rng
+    out = []
+    for b in BASES:
+        t = b.split(" ")
+        var = [t]
+        for i in range(len(t)):
+            var.append(t[:i] + t[i + 1:])
+            if i + 1 < len(t):
+                var.append(t[:i] + [t[i + 1], t[i]] + t[i + 2:])
+            for x in EDIT_TOKS:
+                var.append(t[:i] + [x] + t[i + 1:])
+        for i in range(len(t) + 1):
+            for x in EDIT_TOKS:
+                var.append(t[:i] + [x] + t[i:])
+        for v in var:
+            if not v:
+                continue
+            e = G.spell(rng, v, ws=1.0) if False else " ".join(v)
+            if e not in TOKS:
+                TOKS[e] = v
+                out.append(("abnf", e))
+    return out
+
+
 def gen_cases(ctx):
     out = [("corpus", S.corpus_expr(l)) for l in S.load_corpus("C03")]
+    out += edit_cases(ctx)
     q = ctx.tier == "quick"
     out += abnf_cases(ctx, 4000 if q else 300000)
     # sentences by construction, nested 50 .. 900 deep (below the depth at which the known finding F12 — stack exhaustion — starts)
